@@ -14,19 +14,19 @@ HERE = os.path.dirname(os.path.dirname(os.path.abspath(__file__)))
 CHECKS = {
     "C01": ("truth-table model-set equality against reference predicates + encoding-free counts; exhaustive small graphs + Hypothesis",
             "Every instance explored is decided for all 2^n assignments (bit-parallel truth table, <=22 variables) against a reference predicate written from the documentation and an encoding-free object count; parameters/graphs are enumerated completely in small scopes and sampled by Hypothesis beyond.",
-            "Reference predicates in checks/c01.py are the trusted base; sizes above ~22 variables are not decided semantically."),
+            "Reference predicates in checks/c01.py are the trusted base; above ~22 variables (up to ~1000) the same predicates are compared on sampled assignments only (models found by a bounded DPLL, their neighbours, random rows)."),
     "C02": ("brute-force graph witnesses vs truth-table model counts; exhaustive graphs <=4/5 vertices + Hypothesis",
             "For every labelled graph in the explored scope the model count / satisfiability of the formula (complete truth table) is compared with a brute-force count of the witnesses on the graph.",
-            "Brute-force witness counters are the trusted base; graphs beyond 5-7 vertices are not covered."),
+            "Brute-force witness counters are the trusted base; graphs with 8..40 vertices are covered by sampled assignments, candidate maps and restricted satisfiability (sub-check large), not completely."),
     "C03": ("reference axiom generators (set equality of clauses by variable name) + truth-table/DPLL unsatisfiability + colouring counts",
             "Clause sets are compared with axiom lists regenerated from the documentation, unsatisfiability is decided by complete truth table or DPLL on every instance explored.",
-            "Reference axiom generators and the small DPLL in vlib/sat.py are trusted; unbounded N is not proved."),
+            "Reference axiom generators and the small DPLL in vlib/sat.py are trusted; large instances (OP up to 13 elements, pebbling up to 60 vertices) are compared clause by clause, satisfiability only where a bounded DPLL decides it; unbounded N is not proved."),
     "C04": ("exhaustive enumeration + Hypothesis, bit-parallel arithmetic oracle over all assignments",
             "All polarity patterns up to 6 literals x all operators x all constants x containers x both formula classes are enumerated completely and every assignment is compared with the stated arithmetic; mappings likewise on all small shapes.",
-            "The arithmetic oracle in vlib/tt.py (self-tested against naive evaluation) is trusted; literal lists longer than 7 are not explored."),
+            "The arithmetic oracle in vlib/tt.py (self-tested against naive evaluation) is trusted; literal lists of 9..18 literals are compared on sampled assignments around the threshold only."),
     "C05": ("metamorphic gadget composition G(b)==F(gadget(b)) on all assignments; Hypothesis over CNFs x transformations",
             "For each generated CNF and transformation, every assignment of the new variables is compared (bit-parallel) with F evaluated on the gadget-induced assignment.",
-            "Independent gadget definitions in checks/c05.py are trusted; <=20 new variables."),
+            "Independent gadget definitions in checks/c05.py are trusted; <=20 new variables completely, wider gadgets (arity up to 33) on sampled assignments."),
     "C06": ("round-trip + reference DIMACS reader differential; Hypothesis grammar/mutators and atheris campaign",
             "Writer output is parsed by an independent strict reader and by the tree's reader; arbitrary/mutated texts are classified by a reference interpretation and the reader must agree or raise ValueError.",
             "The reference reader in vlib/readers.py is trusted; gray spellings of integers are accepted either way."),
@@ -35,7 +35,7 @@ CHECKS = {
             "PYTHONHASHSEED and process variety is sampled."),
     "C08": ("differential CNF-class vs OPB-class: names equal and complete truth tables equal",
             "Every family at generated parameters is built with both classes (library and both CLIs) and compared on all assignments.",
-            "<=22 variables per instance."),
+            "<=22 variables per instance completely; realistic sizes on sampled assignments (sub-check large)."),
     "C09": ("witness verification (hook H2 / search) + reference implementation for explicit arguments; Hypothesis",
             "Shuffle results are checked against a verified witness (signed renaming + clause permutation) and against a reference implementation when arguments are explicit; invalid arguments must raise ValueError.",
             "Hook H2 only exposes the witness; it is verified independently."),
@@ -50,7 +50,7 @@ CHECKS = {
             "Parsers in vlib/readers.py are trusted."),
     "C13": ("complete parameter grid x seeds, brute-force count of compatible clauses/parities, GF(2) elimination",
             "For each (k,n,m,planted,seed) the output shape is checked and ValueError must occur exactly when k>n or m exceeds the brute-force maximum.",
-            "n<=12."),
+            "brute-force maximum for n<=12; closed-form maximum (cross-checked against brute force for n<=7) up to 256 variables."),
     "C14": ("round-trip over generated graphs x formats + reference readers on mutated texts; atheris campaign",
             "Write/read round trip compared structurally; mutated texts must give the reference reading or ValueError.",
             "Reference readers in vlib/readers.py."),
